@@ -67,19 +67,37 @@ theorem unsat_conjunct {c e : Expr} (hc : Conjunct c e) (h : optimizeExpr c = .e
     optimizeExpr e = .empty :=
   Scan.unsat_conjunct hc h
 
-/-- Two different equalities, two prefixes neither of which extends the other, two disjoint
-    ranges (`FaceUnsat`), as the only key conjuncts of a clause — among any number of conjuncts
-    that do not constrain the key, in any nesting: nothing is read. -/
-theorem unsat_reads_nothing {e : Expr} {s1 s2 : Scan} (hk : keyScans e = [s1, s2])
-    (hu : FaceUnsat s1 s2) : optimizeExpr e = .empty :=
-  Scan.unsat_reads_nothing hk hu
+/-- If two conjuncts of the flattened `&`/`and` spine — an earlier and a later one, anywhere in
+    the nesting — have inferred scan types whose intersection is EMPTY, the whole conjunction
+    is planned EMPTY, whatever the other conjuncts are and however they are nested. -/
+theorem unsat_reads_nothing (e : Expr) {s1 s2 : Scan}
+    (hk : [s1, s2].Sublist ((conjuncts e).map optimizeExpr)) (hu : andScan s1 s2 = .empty) :
+    optimizeExpr e = .empty :=
+  Scan.unsat_reads_nothing e hk hu
 
-/-- satisfiable: `key = 'a' & value = 'x' & key = 'b'` -/
+/-- the same, naming the two conjuncts -/
+theorem unsat_conjunct_pair (e : Expr) {c1 c2 : Expr} (hk : [c1, c2].Sublist (conjuncts e))
+    (hu : andScan (optimizeExpr c1) (optimizeExpr c2) = .empty) : optimizeExpr e = .empty :=
+  Scan.unsat_conjunct_pair e hk hu
+
+/-- In particular: two different equalities, two prefixes neither of which extends the other,
+    two closed ranges one of which ends before the other starts (`FaceUnsat`). -/
+theorem unsat_face (e : Expr) {s1 s2 : Scan}
+    (hk : [s1, s2].Sublist ((conjuncts e).map optimizeExpr)) (hu : FaceUnsat s1 s2) :
+    optimizeExpr e = .empty :=
+  Scan.unsat_face e hk hu
+
+/-- satisfiable, with a third key conjunct nested between the two: the clause that used to be
+    planned PrefixScan "c" — `key ^= 'c' & (key ^= 'b' & key >= 'ba')` -/
 example :
-    let e : Expr := .binop 0 .and (.binop 0 .eq (.field 0 .key) (.str 0 [97]))
-      (.binop 0 .and (.binop 0 .eq (.field 0 .value) (.str 0 [120])) (.binop 0 .eq (.field 0 .key) (.str 0 [98])))
-    keyScans e = [.mget [[97]], .mget [[98]]] ∧ FaceUnsat (.mget [[97]]) (.mget [[98]]) :=
-  ⟨by decide, .eqEq (by decide)⟩
+    let e : Expr := .binop 0 .and (.binop 0 .prefixMatch (.field 0 .key) (.str 0 [99]))
+      (.binop 0 .and (.binop 0 .prefixMatch (.field 0 .key) (.str 0 [98]))
+        (.binop 0 .gte (.field 0 .key) (.str 0 [98, 97])))
+    [Scan.pre [99], Scan.pre [98]].Sublist ((conjuncts e).map optimizeExpr) ∧
+      FaceUnsat (.pre [99]) (.pre [98]) ∧ optimizeExpr e = .empty := by
+  refine ⟨?_, .prePre (by decide) (by decide), by decide⟩
+  show [Scan.pre [99], Scan.pre [98]].Sublist [Scan.pre [99], Scan.pre [98], Scan.range (some [98, 97]) none]
+  exact List.sublist_append_left [Scan.pre [99], Scan.pre [98]] [Scan.range (some [98, 97]) none]
 
 /-- the three shapes, on the scan types themselves -/
 theorem unsat_eq_eq {a b : Bytes} (h : a ≠ b) : andScan (.mget [a]) (.mget [b]) = .empty :=
